@@ -96,6 +96,12 @@ class RefBlockServer(Peer):
                 rnum = num
                 if self.misbehave and self.misbehave[0] == "b1-wrong-num" and self.misbehave[1] == num:
                     rnum = num + 1
+                if self.misbehave and self.misbehave[0] == "b1-lower-num" and self.misbehave[1] == num and num > 0:
+                    rnum = num - 1 if self.misbehave[1] % 2 else 0      # "still at the block before" / "always block 0"
+                if self.misbehave and self.misbehave[0] == "ok-stateless" and num >= self.misbehave[1]:
+                    # legal (RFC 7959 section 2.5): a server that handles every block on its own acknowledges with the final code
+                    # and M=0; the client goes on sending the rest
+                    return self.reply(src, msg, 68, [(27, rc.block(num, 0, rszx))], b"")
                 return self.reply(src, msg, 95, [(27, rc.block(rnum, 1, rszx))], b"")
             body = a["body"]
             del self.asm[src]
